@@ -2444,8 +2444,10 @@ PPL::MIP_Problem::OK() const {
     }
 
     // Check that every integer declared variable is really integer.
-    // in the solution found.
-    if (!i_variables.empty()) {
+    // in the solution found (when the problem is PARTIALLY_SATISFIABLE the
+    // cached point is a solution of the old problem only: it may have
+    // fewer dimensions and need not be integral on new integer variables).
+    if (!i_variables.empty() && status != PARTIALLY_SATISFIABLE) {
       PPL_DIRTY_TEMP_COEFFICIENT(gcd);
       // TODO: This can be optimized more, exploiting the (possible)
       // sparseness of last_generator, if the size of i_variables is expected
